@@ -117,6 +117,7 @@ struct Core {
     uint64_t last_deadline_fired = 0;
     int max_armed = 0;
     bool cb_mut = false, late2d = false;
+    std::string order_suspect, wait_suspect;
     uint64_t after_fail = 0;    // callbacks that still arrive after the case failed (a loop that spins is left by exception)
 
     void note(const std::string &s) { if (record && log.size() < 5500) { log += s; log += ' '; } }
@@ -177,11 +178,13 @@ struct Core {
             return false;
         }
         uint64_t mind = 0; min_deadline(mind);
-        if (E.deadline > mind) {
+        if (E.deadline > mind && order_suspect.empty()) {
+            // another armed timer has an earlier deadline. Whether this is an ORDER violation (the other one fires later in
+            // the same pass, or is disarmed before its turn) or a MISSED fire (the other one never comes) is decided when the
+            // pass is over; the missed fire takes precedence.
             int other = -1; for (size_t j = 0; j < e.size(); ++j) if (e[j].armed && e[j].deadline == mind) { other = (int)j; break; }
-            fail(fam + "/order/later-deadline-fired-first", vh::fmt("%s #%d with deadline %llu was invoked while #%d with deadline %llu is armed and due (pass started at %llu)",
-                                                                   what, i, (unsigned long long)E.deadline, other, (unsigned long long)mind, (unsigned long long)pass_now));
-            return false;
+            order_suspect = vh::fmt("%s #%d with deadline %llu was invoked while #%d with deadline %llu was armed and due (pass started at %llu)",
+                                    what, i, (unsigned long long)E.deadline, other, (unsigned long long)mind, (unsigned long long)pass_now);
         }
         if (E.persist) CNT("fires_persistent"); else CNT("fires_oneshot");
         if (fired_in_pass > 0 && last_fired != i && last_deadline_fired == E.deadline) CNT("ties_two_timers_same_deadline_same_pass");
@@ -204,7 +207,7 @@ struct Core {
         g_clock += adv;
         pass_now = g_clock;
         ++pass_no;
-        fired_in_pass = 0; last_fired = -1;
+        fired_in_pass = 0; last_fired = -1; order_suspect.clear();
         CNT("passes");
         sig.add(adv);
         if (record) note(vh::fmt("|+%llu", (unsigned long long)adv));
@@ -239,7 +242,13 @@ struct Core {
                 return;
             }
         }
+        if (!order_suspect.empty()) { fail(fam + "/order/later-deadline-fired-first", order_suspect); return; }
         if (fired_in_pass == 0) CNT("passes_without_callback"); else CNT("passes_with_callback");
+    }
+
+    //! end of the script: a wait-time suspicion that no missed fire explained is reported on its own
+    void finish_script() {
+        if (!failed && !wait_suspect.empty()) fail("loop/wait-time/longer-than-nearest-deadline", wait_suspect);
     }
 
     //! "the loop sleeps no longer than the nearest deadline"
@@ -250,8 +259,10 @@ struct Core {
         if (!min_deadline(mind)) { CNT("wait_time_read_with_no_timer_armed"); return; }
         int64_t bound = mind > g_clock ? (int64_t)(mind - g_clock) : 0;
         if (w < 0 || w > bound) {
-            fail("loop/wait-time/longer-than-nearest-deadline",
-                 vh::fmt("getWaitTime()=%lld with the nearest armed deadline %lld ms away (clock=%llu)", (long long)w, (long long)bound, (unsigned long long)g_clock));
+            // reported at the end of the script unless a timer turns out to be lost altogether (then the missed fire is the finding)
+            if (wait_suspect.empty())
+                wait_suspect = vh::fmt("getWaitTime()=%lld with the nearest armed deadline %lld ms away (clock=%llu, pass %llu)", (long long)w, (long long)bound,
+                                       (unsigned long long)g_clock, (unsigned long long)pass_no);
             return;
         }
         if (bound > 0 && w == bound) CNT("wait_time_equals_distance_to_nearest_deadline");
@@ -627,6 +638,7 @@ void timer_random_case(uint64_t idx, vh::Rng &r) {
             CNT("tail_all_disabled_then_far_pass");
         }
     }
+    w.finish_script();
     bool nontrivial = w.max_armed >= 3 && (w.cb_mut || w.late2d) && w.callbacks > 0;
     if (w.cb_mut) CNT("cases_with_in_callback_mutation");
     if (w.late2d) CNT("cases_with_late_wake");
@@ -849,6 +861,7 @@ void pool_random_case(uint64_t idx, vh::Rng &r) {
         w.end_pass();
         CNT("tail_cleanup_then_far_pass");
     }
+    w.finish_script();
     bool nontrivial = w.max_armed >= 3 && (w.cb_mut || w.late2d) && w.callbacks > 0;
     if (w.cb_mut) CNT("cases_with_in_callback_mutation");
     if (w.late2d) CNT("cases_with_late_wake");
@@ -972,6 +985,8 @@ void exhaustive_case(uint64_t idx, vh::Rng &r, int depth) {
                 w.lb.loop->runNext([&drive] { drive(); });
                 return;
             }
+            w.finish_script();
+            if (w.failed) break;
             CNT("x_scripts");
             active = false;
             ++script;
